@@ -35,6 +35,11 @@ func c19BadConfigs(rulesOK string) []badCfg {
 		{"go=go", []string{"-go=gox"}, []string{"-go=gox"}, "version|-go"},
 		{"failOn=bogus", []string{"-enable=ruleguard", "-@ruleguard.rules=" + rulesOK, "-@ruleguard.failOn=bogus"}, []string{"-enable=ruleguard", "-disable=", "-@ruleguard.rules=" + rulesOK, "-@ruleguard.failOn=bogus"}, "failOn"},
 		{"rules-nomatch", []string{"-enable=ruleguard", "-@ruleguard.rules=/nonexistent/dir/*.go"}, []string{"-enable=ruleguard", "-disable=", "-@ruleguard.rules=/nonexistent/dir/*.go"}, "no file matching|nonexistent"},
+		// an invalid element next to valid ones (either order) is still an error
+		{"rules-valid+nomatch", []string{"-enable=ruleguard", "-@ruleguard.rules=" + rulesOK + ",/nonexistent/dir/*.go"}, []string{"-enable=ruleguard", "-disable=", "-@ruleguard.rules=" + rulesOK + ",/nonexistent/dir/*.go"}, "no file matching|nonexistent"},
+		{"rules-nomatch+valid", []string{"-enable=ruleguard", "-@ruleguard.rules=/nonexistent/dir/*.go," + rulesOK}, []string{"-enable=ruleguard", "-disable=", "-@ruleguard.rules=/nonexistent/dir/*.go," + rulesOK}, "no file matching|nonexistent"},
+		{"failOn=dsl,bogus", []string{"-enable=ruleguard", "-@ruleguard.rules=" + rulesOK, "-@ruleguard.failOn=dsl,bogus"}, []string{"-enable=ruleguard", "-disable=", "-@ruleguard.rules=" + rulesOK, "-@ruleguard.failOn=dsl,bogus"}, "failOn"},
+		{"go=1.21.x", []string{"-go=1.21.x"}, []string{"-go=1.21.x"}, "version|-go"},
 		{"empty-selection-unknown", []string{"-enable=nosuchchecker"}, []string{"-enable=nosuchchecker", "-disable="}, "empty"},
 		{"empty-selection-disabled", []string{"-enable=assignOp", "-disable=assignOp"}, []string{"-enable=assignOp", "-disable=assignOp"}, "empty"},
 		{"bad-param-int", []string{"-@hugeParam.sizeThreshold=abc"}, []string{"-@hugeParam.sizeThreshold=abc"}, "sizeThreshold|invalid value"},
